@@ -154,6 +154,46 @@ func (f *frame) compositeEq(op token.Token, a, b Val) (Val, bool) {
 	return BoolV{isConst: true, c: equal == (op == token.EQL)}, true
 }
 
+// constSubArray (Ext): t[lo:hi] of a local array with constant bounds is a slice of known length and content.
+func (f *frame) constSubArray(pv PtrV, x *ssa.Slice, name string) (*SliceObj, bool) {
+	e := f.r.e
+	cur, ok := getPath(pv.cell.v, pv.path)
+	if !ok {
+		return nil, false
+	}
+	av, ok := cur.(*ArrV)
+	if !ok {
+		return nil, false
+	}
+	bound := func(v ssa.Value, def int64) (int64, bool) {
+		if v == nil {
+			return def, true
+		}
+		s, ok := f.eval(v).(Scalar)
+		if !ok {
+			return 0, false
+		}
+		c, isC := s.v.Const()
+		if !isC || !c.IsInt() {
+			return 0, false
+		}
+		return c.Num().Int64(), true
+	}
+	lo, ok1 := bound(x.Low, 0)
+	hi, ok2 := bound(x.High, int64(len(av.e)))
+	if !ok1 || !ok2 || lo < 0 || hi < lo || hi > int64(len(av.e)) {
+		return nil, false
+	}
+	so := &SliceObj{id: name, origin: "array", ln: e.num(hi - lo), content: map[string]Val{}}
+	if at, ok := av.typ.Underlying().(*types.Array); ok {
+		so.elem = at.Elem()
+	}
+	for i := lo; i < hi; i++ {
+		so.content[rfKey(e.num(i-lo).v, e.ST)] = av.e[i]
+	}
+	return so, true
+}
+
 // EnableExt switches the opt-in extensions on for this session's engine.
 func (s *Session) EnableExt() { s.k.e.Ext = true }
 
@@ -413,4 +453,89 @@ func (s *Session) Eval(a Scalar, env map[string]*big.Rat) (*big.Rat, bool) {
 		sum.Add(sum, v)
 	}
 	return sum, true
+}
+
+// ---------------------------------------------------------------- C18: rings and trigonometric atoms
+
+// Rem is a % b exactly as the engine names the (uninterpreted) remainder.
+func (s *Session) Rem(a, b Scalar) Scalar { return s.k.e.app("op%", []Scalar{a, b}) }
+
+// ReduceTrig rewrites sin(x)² to 1 − cos(x)² for every math.Sin application a mentions (numerator and
+// denominator); sin and cos stay uninterpreted otherwise.
+func (s *Session) ReduceTrig(a Scalar) Scalar {
+	e := s.k.e
+	var added []symID
+	seen := map[symID]bool{}
+	var visit func(id symID)
+	visit = func(id symID) {
+		if seen[id] {
+			return
+		}
+		seen[id] = true
+		ai := e.apps[id]
+		if ai == nil {
+			return
+		}
+		if ai.op == "math.Sin" && len(ai.args) == 1 {
+			if _, had := e.ST.square[id]; !had {
+				c := e.app("math.Cos", []Scalar{{v: ai.args[0]}})
+				e.ST.square[id] = e.Sub(e.num(1), e.Mul(c, c)).v.n
+				added = append(added, id)
+			}
+		}
+		for _, arg := range ai.args {
+			for _, t := range arg.Support() {
+				visit(t)
+			}
+		}
+	}
+	for _, id := range a.v.Support() {
+		visit(id)
+	}
+	out := Scalar{v: mkRF(a.v.n.reduceSquares(e.ST), nil), deps: a.deps}
+	if a.v.d != nil {
+		out = Scalar{v: mkRF(a.v.n.reduceSquares(e.ST), a.v.d.reduceSquares(e.ST)), deps: a.deps}
+	}
+	for _, id := range added {
+		delete(e.ST.square, id)
+	}
+	return out
+}
+
+// NumDen splits a rational function into numerator and denominator (1 for a polynomial).
+func (s *Session) NumDen(a Scalar) (num, den Scalar) {
+	return Scalar{v: rfPoly(a.v.n), deps: a.deps}, Scalar{v: rfPoly(a.v.den())}
+}
+
+// Monomials lists the terms of the polynomial a: coefficient sign and the exponent of every symbol by name.
+func (s *Session) Monomials(a Scalar) (out []struct {
+	Sign int
+	Exp  map[string]int
+}, ok bool) {
+	if a.v.d != nil {
+		return nil, false
+	}
+	for _, t := range a.v.n.sortedTerms(s.k.e.ST) {
+		m := struct {
+			Sign int
+			Exp  map[string]int
+		}{Sign: t.c.Sign(), Exp: map[string]int{}}
+		for _, se := range t.m {
+			m.Exp[s.k.e.ST.Name(se.s)] = int(se.e)
+		}
+		out = append(out, m)
+	}
+	return out, true
+}
+
+// AppName: the operator of a symbol name that is an uninterpreted application ("" otherwise).
+func (s *Session) AppName(symName string) string {
+	id, ok := s.k.e.ST.byName[symName]
+	if !ok {
+		return ""
+	}
+	if ai := s.k.e.apps[id]; ai != nil {
+		return ai.op
+	}
+	return ""
 }
